@@ -199,7 +199,7 @@ func cleanupScratch() {
 // runPortfolio races the solvers on one query (which must end with (check-sat)).
 // wantModel adds (get-model) handling: the first "sat" answer's output is kept.
 func runPortfolio(name, query string, timeoutS int, seed int) *SolverResult {
-	h := sha256.Sum256([]byte(query))
+	h := sha256.Sum256([]byte(fmt.Sprintf("%d/%d/", timeoutS, seed) + query))
 	key := hex.EncodeToString(h[:])
 	cacheMu.Lock()
 	if r, ok := queryCache[key]; ok {
